@@ -3,7 +3,7 @@ Same machinery as C11 (model, recorder, driver); histories are tracked, add-heav
 import os, re
 
 from lib.common import LEAN, write_if_changed
-from lib import solvercheck as SC, solverlib as L
+from lib import solvercheck as SC, solverlib as L, corefam
 import translate_solver as ts
 
 THEOREMS = ["Claripy.Props.C16.C16_mro_solver", "Claripy.Props.C16.C16_core_ids", "Claripy.Props.C16.C16_core_after_check"]
@@ -139,7 +139,10 @@ def run(ctx):
                        "SolverComposite, SolverCacheless, SolverHybrid: constraints carrying annotations (Bool-level Origin / Uninitialized, annotated "
                        "variables), syntactic contradictions among them, concretely false constraints, openings `question spanning two independent "
                        "variables, branches, two solvers add over exactly both` and `one side of a branch used by a worker thread in between`; "
-                       "core elements compared by AST identity; "
+                       "core elements compared by AST identity; same-shape families: one 8/16-bit variable, 3..8 "
+                       "constraints `(x + a) OP c` differing in the constant only (dense constants; pairs whose Z3 formulas have the same 32-bit AST hash "
+                       "searched for and placed side by side, the earlier one outside every conflict), Solver / SolverCacheless / SolverComposite, judged "
+                       "over all 2^w values; "
                        "non-trivial = history with >= 3 calls")
     tie_ok = True
     try:
@@ -161,6 +164,11 @@ def run(ctx):
     SC.merge_cov(ctx, mo, "tracked-histories(oracle only: annotated constraints, all classes)")
     ctx.cov["input_distribution"]["tracked-histories(oracle only: annotated constraints, all classes)"]["unsat_core_calls"] = mo["opdist"].get("unsat_core", 0)
     fails += mo["fails"]
+    # same-shape families (own alphabet: one 8/16-bit variable, `(x + a) OP c` for many c, look-alikes for Z3's AST hash side by side)
+    fam, fstats = corefam.stage(ctx, ctx.pick(150, 1500), ctx.pick(4096, 16384))
+    ctx.cov["input_distribution"]["same-shape-families"] = fstats
+    for case, kind, why in fam[:3]:
+        ctx.violation("C16/%s/unsat_core/%s:%s" % (case["cls"], kind, corefam.SIG), why, {"family": case})
     if m["driver_error"]:
         ctx.tie_broken("driver", m["driver_error"])
     for mm in m["mismatch"][:3]:
@@ -179,4 +187,6 @@ def run(ctx):
 
 
 def replay(ctx, obj):
+    if "family" in obj["replay"]:
+        return corefam.replay(obj)
     return SC.replay_history("C16", obj)
